@@ -181,6 +181,29 @@ claim("C17", "exploration",
       "the trigonometric reduction (2/pi multiword truncated at the smallest subnormal; ~2^-2p absolute accuracy of the remainder).",
       "DESIGN.md section 3 C17")
 
+claim("C05", "translation_validation",
+      "per-program translation validation: emitted Python/NumPy/C++ is loaded, scanned (single assignment, no shared variables) and executed against an independent reference interpreter; ASan/UBSan build of the emitted C++",
+      "Programs: every shipped (function, signature) of the three targets (NumPy at debug 0 and 1), a unit program for every entry of each kind_to_target / "
+      "constant_to_target table, directed programs for printer idioms (operand parenthesisation, per-operand types, equal constants under different types / zero "
+      "signs, non-finite and complex constants, mixed precision) and random typed graphs. Each emitted text must load (exec; g++ -fsyntax-only and two "
+      "shared-object builds), bind every name once before use (ast walk / declaration scan) with no variable shared by distinct sub-expressions, and return "
+      "bit-identical results to a scalar reference interpreter over the same primitive library on hostile inputs; the thorough tier rebuilds the C++ batch with "
+      "clang++ -fsanitize=address,undefined -fno-sanitize-recover=all and runs every function on the hostile table.",
+      "Trusted: vf/refinterp.py semantics (Python math; NumPy scalars; IEEE ops + glibc libm via ctypes, C++ promotion and std::complex-by-scalar rules); g++ 12 "
+      "with -ffp-contract=off -fno-builtin. max/min accept either operand on equal/NaN operands; reference runs that raise are not compared; complex*complex "
+      "in C++ (libgcc __mulsc3) is not modelled.",
+      "DESIGN.md section 3 C05")
+
+claim("C08", "exploration",
+      "runtime monitors: the generated NumPy code's own debug=1 dtype assertions + an independent per-node dtype recorder compared with static inference",
+      "Shipped NumPy signatures and generated graphs whose 1-3 symbols draw their dtypes independently from float16/32/64 and complex64/128 (constants of "
+      "every value type, 'like' chains, casts, selects, abs/real/imag/complex, min/max/hypot/atan2/copysign) are emitted with debug=1 and run on hostile scalars: "
+      "an AssertionError from generated code or a result dtype different from the declared one is the event; in addition an independent scalar interpreter "
+      "records the dtype NumPy produces at every node and compares it with get_type() (only root causes are reported), and is_complex must agree with get_type().",
+      "Trusted: NumPy 2 promotion rules as run-time truth. Assertions fired in a graph whose per-node comparison already found a mismatch are attributed to it. "
+      "Known finding KF-C08-python-max-min.",
+      "DESIGN.md section 3 C08")
+
 SOURCE_COMMITS = []
 
 
